@@ -224,7 +224,12 @@ func (x *c10env) build(fam *report.Family, famName, format, pre string, s *PkgSp
 	if err != nil {
 		fam.Eval(key, false)
 		fam.Count(format + ":build-error")
-		x.c.Rep.Find(report.Finding{Property: "C10", Family: famName, Shape: pre + "signed-build-error",
+		shape := pre + "signed-build-error"
+		if pre == "deb:dpkg-sig:" && !strings.Contains(err.Error(), "dummy key") {
+			// the recorded finding is the subkey-only key file, whose primary key is a dummy: any other failure is new
+			shape += ":not-the-recorded-subkey-only-case"
+		}
+		x.c.Rep.Find(report.Finding{Property: "C10", Family: famName, Shape: shape,
 			What: "the spec builds unsigned but fails with signing configured: " + err.Error(), Input: in})
 		return nil, in, false
 	}
